@@ -140,6 +140,13 @@ fn runtime_fns<W: std::fmt::Write>(
     Ok(())
 }
 
+/// List the items of a map ordered by their keys (the map itself iterates in a random order).
+fn sorted_by_key<V>(map: &HashMap<String, V>) -> Vec<(&String, &V)> {
+    let mut list: Vec<_> = map.iter().collect();
+    list.sort_by(|a, b| a.0.cmp(b.0));
+    list
+}
+
 fn runtime_var_list() -> Vec<&'static str> {
     let mut ret: Vec<_> = RUNTIME_ITEMS.iter().map(|(k, _)| *k).collect();
     ret.push("Q");
@@ -403,7 +410,7 @@ impl TmplGroup {
 
     fn write_all_scripts(&self, w: &mut JsFunctionScopeWriter<String>) -> Result<(), TmplError> {
         if self.scripts.len() > 0 {
-            for (p, script) in self.scripts.iter() {
+            for (p, script) in sorted_by_key(&self.scripts) {
                 w.expr_stmt(|w| {
                     write!(
                         w,
@@ -433,7 +440,7 @@ impl TmplGroup {
                         Ok(())
                     })?;
                     self.write_group_global_content(w)?;
-                    for (path, tree) in self.trees.iter() {
+                    for (path, tree) in sorted_by_key(&self.trees) {
                         w.expr_stmt(|w| {
                             write!(w, r#"G[{}]="#, gen_lit_str(path))?;
                             tree.to_proc_gen(w, self)?;
@@ -468,7 +475,7 @@ impl TmplGroup {
                         Ok(())
                     })?;
                     self.write_group_global_content(w)?;
-                    for (path, tree) in self.trees.iter() {
+                    for (path, tree) in sorted_by_key(&self.trees) {
                         w.expr_stmt(|w| {
                             write!(w, r#"__wxCodeSpace__.addCompiledTemplate({path},{{groupList:G,content:G[{path}]="#, path = gen_lit_str(path))?;
                             tree.to_proc_gen(w, self)?;
